@@ -84,6 +84,10 @@ func init() {
 		})
 		mp.add(streamPhaseFor("C09", 4, 100))
 		mp.add(probePhaseFor("C09"))
+		// merges beside index / trigger creation and removal on the merged column (the index-build rounds of C03 count them)
+		mp.add(racePlan(2, 20), func(w *W, idx int) {
+			withWatchdog(w, idx, fmt.Sprintf("E3:index-build-beside-writers:round%d", idx), 5*time.Minute, func() { indexBuildRound(w, idx) })
+		})
 		mp.add(func(tier string) Plan {
 			n := 4
 			if tier == "thorough" {
